@@ -318,7 +318,7 @@ func (b *rawBackend) serve() {
 
 // ---- the instance ------------------------------------------------------------
 
-const allPlaceholders = `{remote} {method} {scheme} {hostname} {host} {hostonly} {path} {path_escaped} {request_id} {rewrite_path} {rewrite_path_escaped} {query} {query_escaped} {fragment} {proto} {port} {uri} {uri_escaped} {rewrite_uri} {rewrite_uri_escaped} {when} {when_iso_local} {when_iso} {when_unix} {when_unix_ms} {file} {dir} {request} {request_body} {mitm} {status} {size} {latency} {latency_ms} {tls_protocol} {tls_cipher} {tls_client_escaped_cert} {tls_client_fingerprint} {tls_client_i_dn} {tls_client_raw_cert} {tls_client_s_dn} {tls_client_serial} {tls_client_v_end} {tls_client_v_remain} {tls_client_v_start} {server_port} {label0} {label1} {label2} {label99} {labelx} {user} {>X-A} {>Cookie} {>Authorization} {>Host} {<Content-Type} {<Link} {~sid} {~} {?q} {?} {$HOME} {$NOPE=dflt} {unknown}`
+const allPlaceholders = `{remote} {method} {scheme} {hostname} {host} {hostonly} {path} {path_escaped} {request_id} {rewrite_path} {rewrite_path_escaped} {query} {query_escaped} {fragment} {proto} {port} {uri} {uri_escaped} {rewrite_uri} {rewrite_uri_escaped} {when} {when_iso_local} {when_iso} {when_unix} {when_unix_ms} {file} {dir} {request} {request_body} {mitm} {status} {size} {latency} {latency_ms} {tls_protocol} {tls_cipher} {tls_client_escaped_cert} {tls_client_fingerprint} {tls_client_i_dn} {tls_client_raw_cert} {tls_client_s_dn} {tls_client_serial} {tls_client_v_end} {tls_client_v_remain} {tls_client_v_start} {server_port} {label0} {label1} {label2} {label3} {label4} {label5} {label99} {labelx} {user} {>X-A} {>Cookie} {>Authorization} {>Host} {<Content-Type} {<Link} {~sid} {~} {?q} {?} {$HOME} {$NOPE=dflt} {unknown}`
 
 type e2eEnv struct {
 	r        *rec
@@ -374,7 +374,7 @@ func startE2E(r *rec, dir string, shard int) (*e2eEnv, error) {
 	e.tlsAddr = fmt.Sprintf("127.0.0.1:%d", ports[1])
 	e.tlsHost = fmt.Sprintf("c19.test:%d", ports[1])
 	fa, ba := e.fcgi.ln.Addr().String(), e.backend.ln.Addr().String()
-	cf := fmt.Sprintf(`http://127.0.0.1:%d, http://c19.test:%d, http://[::1]:%d, http://*.wild.test:%d {
+	cf := fmt.Sprintf(`http://127.0.0.1:%d, http://c19.test:%d, http://[::1]:%d, http://*.wild.test:%d, http://:%d {
 	verifc19
 	bind 127.0.0.1
 	root %s
@@ -435,7 +435,7 @@ https://c19.test:%d {
 		without /px
 	}
 }
-`, ports[0], ports[0], ports[0], ports[0], root, filepath.Join(dir, fmt.Sprintf("access-%d.log", shard)), allPlaceholders, fa, ba,
+`, ports[0], ports[0], ports[0], ports[0], ports[0], root, filepath.Join(dir, fmt.Sprintf("access-%d.log", shard)), allPlaceholders, fa, ba,
 		ports[1], crt, key, root, filepath.Join(dir, fmt.Sprintf("access-tls-%d.log", shard)), allPlaceholders, ba)
 	os.WriteFile(filepath.Join(dir, fmt.Sprintf("Casketfile-%d", shard)), []byte(cf), 0o644)
 	// hostile peers leave half-open connections behind; do not let every
@@ -615,7 +615,7 @@ var hostileMisc = [][2]string{{"X-Rew", "1"}, {"X-Redir", "1"}, {"Accept-Encodin
 
 func hostileHosts(plain string) []string {
 	port := plain[strings.LastIndex(plain, ":")+1:]
-	return []string{plain, "c19.test:" + port, "[::1]:" + port, "[::1]", "[", "]", "[::1", "a]:80", "[]", "[]:" + port, "[::1]:", "a:b:c", "host:99999", ".", "..", "a..b", "", " ", "xn--", "%41", "{label1}", "C19.TEST:" + port,
+	return []string{plain, "c19.test:" + port, "[::1]:" + port, "[::1]", "[", "]", "[::1", "a]:80", "[]", "[]:" + port, "[::1]:", "a:b:c", "host:99999", ".", "..", "a..b", "", " ", "xn--", "%41", "{label1}", "c19.test.", "localhost.", "x.", "a.b.", "a.b.c.", "a.b.c.d.", "a.b.c.d.e.", "c19.test.:" + port, "..a.", "C19.TEST:" + port,
 		"x.wild.test:" + port, "a.b.wild.test", ".wild.test", "İ.wild.test:" + port, "K.wild.test", strings.Repeat("a.", 200) + "wild.test", "127.0.0.1:" + port + ":1", "[::ffff:127.0.0.1]:" + port, "[fe80::1%25eth0]:" + port, "c19.test.", "c19.test:" + port + "/x", "user@c19.test:" + port, "c19.test:0x50"}
 }
 
